@@ -365,7 +365,10 @@ func topoOrder(fn *ssa.Function) []*ssa.BasicBlock {
 	var dfs func(b *ssa.BasicBlock)
 	dfs = func(b *ssa.BasicBlock) {
 		visited[b] = true
-		for _, s := range b.Succs {
+		// visit successors last-to-first so that Succs[0] (then-branch, often an early
+		// return) comes first in the reverse postorder
+		for i := len(b.Succs) - 1; i >= 0; i-- {
+			s := b.Succs[i]
 			if s.Dominates(b) {
 				continue
 			}
@@ -390,7 +393,19 @@ func (a *Activation) merge(preds []*State, predBlocks []*ssa.BasicBlock, b *ssa.
 		a.resolvePhis(b, predBlocks, preds, st)
 		return st
 	}
-	out := &State{cells: map[cellKey]Val{}, heaps: map[string]Term{}, ghosts: map[string]Term{}}
+	out := &State{cells: map[cellKey]Val{}, heaps: map[string]Term{}, ghosts: map[string]Term{}, closedSeen: map[string]bool{}}
+	for k := range preds[0].closedSeen {
+		all := true
+		for _, p := range preds[1:] {
+			if !p.closedSeen[k] {
+				all = false
+				break
+			}
+		}
+		if all {
+			out.closedSeen[k] = true
+		}
+	}
 	var pcs []Term
 	for _, p := range preds {
 		pcs = append(pcs, p.pc)
@@ -502,11 +517,22 @@ func (a *Activation) mergeTerms(ts []Term, preds []*State, prefix string) Term {
 		return ts[0]
 	}
 	g := a.g
-	v := g.fresh(prefix, ts[0].Sort)
-	for i, t := range ts {
-		g.assertLine(implies(preds[i].pc, eq(v, t)), v)
+	// path conditions of the predecessors are mutually exclusive: an ite chain is exact
+	v := ts[len(ts)-1]
+	var conds []Term
+	for i := 0; i < len(ts)-1; i++ {
+		conds = append(conds, preds[i].pc)
 	}
-	return v
+	for i := len(ts) - 2; i >= 0; i-- {
+		v = ite(preds[i].pc, ts[i], v)
+	}
+	if strings.HasPrefix(v.Sort, "(Array Loc ") {
+		if g.merges == nil {
+			g.merges = map[string]mergeInfo{}
+		}
+		g.merges[v.S] = mergeInfo{conds: conds, terms: ts}
+	}
+	return g.define(prefix, v)
 }
 
 func (a *Activation) mergeVals(vs []Val, preds []*State, prefix string) Val {
